@@ -227,8 +227,15 @@ def create_text_object_decorator(
                 if vi_state.operator_arg is not None or event.arg_present:
                     event._arg = str((vi_state.operator_arg or 1) * (event.arg or 1))
 
-                # Call the text object handler.
+                # Call the text object handler. (`None`, or an exclusive object
+                # with equal ends: the motion failed or spans nothing, and the
+                # operator is cancelled.)
                 text_obj = text_object_func(event)
+                if text_obj is not None and (
+                    text_obj.type == TextObjectType.EXCLUSIVE
+                    and text_obj.start == text_obj.end
+                ):
+                    text_obj = None
 
                 # Get the operator function.
                 # (Should never be None here, given the
@@ -260,7 +267,8 @@ def create_text_object_decorator(
                     Move handler for navigation mode.
                     """
                     text_object = text_object_func(event)
-                    event.current_buffer.cursor_position += text_object.start
+                    if text_object is not None:
+                        event.current_buffer.cursor_position += text_object.start
 
             # Register a move selection operation.
             if not no_selection_handler:
@@ -280,8 +288,8 @@ def create_text_object_decorator(
                     buff = event.current_buffer
                     selection_state = buff.selection_state
 
-                    if selection_state is None:
-                        return  # Should not happen, because of the `vi_selection_mode` filter.
+                    if selection_state is None or text_object is None:
+                        return  # (No selection: should not happen; no object: failed motion.)
 
                     # When the text object has both a start and end position, like 'i(' or 'iw',
                     # Turn this into a selection, otherwise the cursor.
@@ -1326,7 +1334,7 @@ def load_vi_bindings() -> KeyBindingsBase:
         End of 'word': 'ce', 'de', 'e'
         """
         end = event.current_buffer.document.find_next_word_ending(count=event.arg)
-        return TextObject(end - 1 if end else 0, type=TextObjectType.INCLUSIVE)
+        return TextObject(end - 1, type=TextObjectType.INCLUSIVE) if end else None
 
     @text_object("E")
     def _end_of_WORD(event: E) -> TextObject:
@@ -1336,7 +1344,7 @@ def load_vi_bindings() -> KeyBindingsBase:
         end = event.current_buffer.document.find_next_word_ending(
             count=event.arg, WORD=True
         )
-        return TextObject(end - 1 if end else 0, type=TextObjectType.INCLUSIVE)
+        return TextObject(end - 1, type=TextObjectType.INCLUSIVE) if end else None
 
     @text_object("i", "w", no_move_handler=True)
     def _inner_word(event: E) -> TextObject:
@@ -1592,6 +1600,8 @@ def load_vi_bindings() -> KeyBindingsBase:
         """
         Implements 'cj', 'dj', 'j', ... Cursor up.
         """
+        if event.current_buffer.document.on_last_line:
+            return None
         return TextObject(
             event.current_buffer.document.get_cursor_down_position(count=event.arg),
             type=TextObjectType.LINEWISE,
@@ -1602,6 +1612,8 @@ def load_vi_bindings() -> KeyBindingsBase:
         """
         Implements 'ck', 'dk', 'k', ... Cursor up.
         """
+        if event.current_buffer.document.on_first_line:
+            return None
         return TextObject(
             event.current_buffer.document.get_cursor_up_position(count=event.arg),
             type=TextObjectType.LINEWISE,
@@ -1852,6 +1864,8 @@ def load_vi_bindings() -> KeyBindingsBase:
         Go to last non-blank of line.
         'g_', 'cg_', 'yg_', etc..
         """
+        if not event.current_buffer.document.current_line.strip():
+            return None  # Blank line.
         return TextObject(
             event.current_buffer.document.last_non_blank_of_current_line_position(),
             type=TextObjectType.INCLUSIVE,
@@ -1866,9 +1880,9 @@ def load_vi_bindings() -> KeyBindingsBase:
         prev_end = event.current_buffer.document.find_previous_word_ending(
             count=event.arg
         )
-        return TextObject(
-            prev_end - 1 if prev_end is not None else 0, type=TextObjectType.INCLUSIVE
-        )
+        if prev_end is None:
+            return None
+        return TextObject(prev_end - 1, type=TextObjectType.INCLUSIVE)
 
     @text_object("g", "E")
     def _gE(event: E) -> TextObject:
@@ -1879,9 +1893,9 @@ def load_vi_bindings() -> KeyBindingsBase:
         prev_end = event.current_buffer.document.find_previous_word_ending(
             count=event.arg, WORD=True
         )
-        return TextObject(
-            prev_end - 1 if prev_end is not None else 0, type=TextObjectType.INCLUSIVE
-        )
+        if prev_end is None:
+            return None
+        return TextObject(prev_end - 1, type=TextObjectType.INCLUSIVE)
 
     @text_object("g", "m")
     def _gm(event: E) -> TextObject:
